@@ -1,1 +1,8 @@
+import SpoxModel.Model.Opset
 /-! Property theorems for C09 (only property-level statements and non-vacuity examples live here). -/
+namespace C09
+open Opset
+
+theorem min_opset_ge_14 : 14 ≤ Generated.OpsetFacts.internalMinOpset := by decide
+
+end C09
